@@ -391,6 +391,8 @@ class Engine:
             return SymMeth(name, o)
         if hasattr(o, '__pyvc_attr__'):
             return o.__pyvc_attr__(self, name)
+        if getattr(o, '__pyvc_symbolic__', False) and not hasattr(type(o), name):
+            raise Unsupported(f'attribute {name} of ghost {type(o).__name__} not modelled')
         try:
             return getattr(o, name)
         except AttributeError as e:
@@ -853,6 +855,8 @@ class Engine:
                         raise RaiseEx(ValueError('bytes must be in range(0, 256)'))
                 return SBytes.from_elems(list(o), mutable=(f is bytearray))
             raise Unsupported('bytes() of ' + repr(o))
+        if f is list and len(args) == 1 and isinstance(args[0], SymRange) and not args[0].is_concrete():
+            return SymConcat(args[0], [])
         if f in (enumerate, reversed, zip, iter, sorted, set, sum, list, tuple, frozenset):
             conv = [self.iterate(a) for a in args]
             if f is sum:
@@ -927,6 +931,8 @@ class Engine:
                 return False
         if (f is int.from_bytes or (getattr(f, '__name__', '') == 'from_bytes')) and hasattr(args[0], '__pyvc_from_bytes__'):
             return args[0].__pyvc_from_bytes__(self, args[1] if len(args) > 1 else kwargs.get('byteorder', 'big'))
+        if getattr(f, '__name__', '') == 'to_bytes' and args and isinstance(args[0], Sym):
+            return self.symmeth('to_bytes', args[0], list(args[1:]), kwargs)
         if f is int.from_bytes or (getattr(f, '__name__', '') == 'from_bytes'):
             b = self.as_sbytes(args[0])
             order = args[1] if len(args) > 1 else kwargs.get('byteorder', 'big')
@@ -1091,6 +1097,8 @@ class Engine:
                         return v[k]
                 raise RaiseEx(KeyError('symbolic key'))
             raise Unsupported('symbolic subscript')
+        if getattr(v, '__pyvc_symbolic__', False) or getattr(s, '__pyvc_symbolic__', False):
+            raise Unsupported(f'subscript of {type(v).__name__} by {type(s).__name__} (ghost value not modelled)')
         try:
             return v[s]
         except (IndexError, KeyError, TypeError) as e:
@@ -1260,6 +1268,8 @@ class Engine:
                         r = r * x
                     return Sym(r)
             raise Unsupported(f'binop {type(op).__name__} on symbolic ints')
+        if has_sym(a) and not isinstance(a, (list, tuple, dict)) or has_sym(b) and not isinstance(b, (list, tuple, dict)):
+            raise Unsupported(f'operator {type(op).__name__} on {type(a).__name__} and {type(b).__name__} (ghost/symbolic operand not modelled)')
         try:
             return self._optable[type(op)](a, b)
         except (TypeError, ValueError, ZeroDivisionError, OverflowError) as e:
@@ -1786,11 +1796,16 @@ class Engine:
         spec, lid = self.loop_spec(s)
         if spec is not None:
             return self.cut_loop(s, env, g, spec, lid, test=lambda: self.truth(self.ev(s.test, env, g)), pre_body=None)
-        n = 0
-        while self.truth(self.ev(s.test, env, g)):
+        n = nsym = 0
+        while True:
+            before = len(self.trace)
+            if not self.truth(self.ev(s.test, env, g)):
+                break
             n += 1
-            if n > 3000:
-                raise Unsupported('while loop without invariant exceeded the unrolling bound (3000)')
+            if len(self.trace) > before:
+                nsym += 1            # the loop condition was decided by a symbolic fork
+            if n > 3000 or nsym > 48:
+                raise Unsupported('while loop without invariant exceeded the unrolling bound (3000 iterations / 48 symbolic tests)')
             try:
                 self.ex(s.body, env, g)
             except Brk:
@@ -2014,14 +2029,21 @@ class NewType:
 
 
 class SymConcat:
-    """[*range(symbolic), t1, ..., tk]"""
+    """[*range(symbolic), t1, ..., tk]   (also list(range(symbolic)) + [t1, ...])"""
     __pyvc_symbolic__ = True
 
     def __init__(self, rng, tail):
         self.rng, self.tail = rng, tail
 
+    def __pyvc_binop__(self, eng, op, other, refl):
+        if isinstance(op, ast.Add) and not refl and isinstance(other, list):
+            return SymConcat(self.rng, list(self.tail) + other)
+        return NotImplemented
+
 
 class SymRange:
+    __pyvc_symbolic__ = True
+
     def __init__(self, *a):
         if len(a) == 1:
             self.start, self.stop, self.step = 0, a[0], 1
